@@ -44,9 +44,10 @@ func init() {
 			"a per-case wall-clock watchdog (120 s, generous: cases take milliseconds) ends the worker; the driver reports the last logged case. Blocking builtins are only reached under a context deadline",
 			"host builtins registered by the harness itself (package verif, which panics on demand) are excluded from the sweep",
 		},
-		Cases:         func(tier string) int { return pick(tier, 14000, 466666) }, // 12000 / 400000 + every seventh
+		Cases:         func(tier string) int { return pick(tier, 15167, 505555) }, // 12000 / 400000 + every seventh + every thirteenth
 		Run:           c03Run,
 		Init:          c03Init,
+		Driver:        c03Driver,
 		MinDistinct:   func(tier string) int { return pick(tier, 900, 1200) },
 		WorkerTimeout: func(tier string) time.Duration { return time.Duration(pick(tier, 25, 240)) * time.Minute },
 	})
@@ -62,6 +63,7 @@ type c03Fun struct {
 	kind      lisp.LFunType
 	nformals  int
 	variadic  bool
+	formals   []string // the names, in order (the re-entrant family names a callback position after its formal)
 }
 
 func c03Init(w *fw.W) {
@@ -110,6 +112,7 @@ func c03Init(w *fw.W) {
 					continue
 				}
 				f.nformals++
+				f.formals = append(f.formals, fs.Str)
 			}
 			st.funs = append(st.funs, f)
 		}
@@ -161,6 +164,13 @@ var c03CaseIdx int
 
 func c03Run(w *fw.W, idx int) {
 	c03CaseIdx = idx
+	// every thirteenth case belongs to the re-entrant callbacks (c03_reentrant.go); the
+	// others keep the numbering they had before that family was interleaved
+	if idx%13 == 12 {
+		c03Reentrant(w, idx, idx/13)
+		return
+	}
+	idx -= (idx + 1) / 13
 	// every seventh case (7 shares no factor with the usual worker counts, so the family
 	// spreads over all workers) belongs to the formals zoo; the other six keep the
 	// numbering - and so the generators - they had before the zoo was interleaved
@@ -549,7 +559,7 @@ func c03Sweep(w *fw.W, idx int) {
 	// values in two positions (a defect that needs a PAIR of unusual arguments, such as
 	// a long string and a count near the integer limit, is otherwise a lottery).
 	rep := k / (len(st.funs) * (maxAr + 1)) // how often this (function, arity) came up before
-	var bidx []int // boundary subset of the pool
+	var bidx []int                          // boundary subset of the pool
 	perType := map[lisp.LType]int{}
 	for j, p := range pool {
 		switch {
